@@ -53,7 +53,7 @@ def run_align(case):
     from src.correlation.peak import Peak
     P = case['P']
     ref = OpticalMap(1, int(case['rlen']), [float(x) for x in case['ref']])
-    qm = OpticalMap(7, int(case['qlen']), [float(x) for x in case['qry']], case.get('shift', 0))
+    qm = OpticalMap(7, case['qlen'], [float(x) for x in case['qry']], case.get('shift', 0))
     peaks = [Peak(p, 10.) for p in case['peaks']]
     out = {}
     try:
@@ -84,7 +84,7 @@ def run_align(case):
 
 # ------------------------------------------------------------------------------------------------ Coq side
 PRELUDE = '''From Coq Require Import ZArith QArith List Bool String. Import ListNotations.
-Require Import Py Pairing Core Multi Cigar. Open Scope Z_scope.
+Require Import Py Pairing Core Multi Cigar Checkers. Open Scope Z_scope.
 Notation cpos := (Z * Z * Z * Z * Z * Z)%type.
 Definition canon (p : spos) : cpos := match ap p with Pair r q s src => (0, site r, site q, s, sc p, src) | URef r => (1, site r, 0, 0, sc p, 0) | UQry q _ => (2, 0, site q, 0, sc p, 0) end.
 Definition eq6 (a b : cpos) := match a, b with (a1,a2,a3,a4,a5,a6),(b1,b2,b3,b4,b5,b6) => (a1=?b1)&&(a2=?b2)&&(a3=?b3)&&(a4=?b4)&&(a5=?b5)&&(a6=?b6) end.
@@ -97,10 +97,11 @@ Definition mkparams (p : Z*Z*Z*Z*Z*Z*Z*Z) : params := match p with (sp,dpu,su,ms
 Definition site_pairs (segs : list segment) : list (Z * Z) := List.map (fun p => let v := pv_of p in (site (pr v), site (pq v))) (row_pairs segs).
 '''
 
-ALIGN_CHECK = PRELUDE + '''
+ALIGN_CORR = PRELUDE + '''
 (* case: params, iteration, ref positions, ref length, query positions, query length, query shift, peaks, reverse;
    expected: error flag, segments, header (qs, qe, rs, re, confidence), HitEnum text (or error flag) *)
-Definition check (c : (Z*Z*Z*Z*Z*Z*Z*Z) * Z * list Z * Z * list Z * Z * Z * list Z * bool * (bool * list cseg * (Z*Z*Z*Z*Z) * (bool * string))) : Z :=
+Notation acase := ((Z*Z*Z*Z*Z*Z*Z*Z) * Z * list Z * Z * list Z * Z * Z * list Z * bool * (bool * list cseg * (Z*Z*Z*Z*Z) * (bool * string)))%type.
+Definition corr_code (c : acase) : Z :=
   match c with (p, it, refp, rlen_, qp, qlen_, qshift, peaks, rev_, (err, esegs, (eqs, eqe, ers, ere, econf), (cerr, ecig))) =>
     match aligner_align (mkparams p) it (mkMap 1 rlen_ refp 0) (mkMap 7 qlen_ qp qshift) peaks rev_ with
     | Err => if err then 0 else 1
@@ -113,7 +114,21 @@ Definition check (c : (Z*Z*Z*Z*Z*Z*Z*Z) * Z * list Z * Z * list Z * Z * Z * list
       | Ok s => if cerr then 4 else if String.eqb s ecig then 0 else 4
       | Err => if cerr then 0 else 4
       end
-    end end.'''
+    end end.
+'''
+ALIGN_CHECK = ALIGN_CORR + "Definition check (c : acase) : Z := corr_code c.\n"
+# C01: additionally the verified checker valid_rowb (proofs/CheckersProofs.v: valid_rowb_spec) on the pairs the IMPLEMENTATION returned
+ALIGN_CHECK_C01 = ALIGN_CORR + '''
+Definition epairs (esegs : list cseg) : list (Z * Z) :=
+  flat_map (fun s => match s with (_, _, l) => flat_map (fun p => match p with (k, r, q, _, _, _) => if k =? 0 then [(r, q)] else [] end) l end) esegs.
+Definition check (c : acase) : Z :=
+  let k := corr_code c in if negb (k =? 0) then k else
+  match c with (p, it, refp, rlen_, qp, qlen_, qshift, peaks, rev_, (err, esegs, _, _)) =>
+    match epairs esegs with
+    | [] => 0
+    | ps => if valid_rowb (Z.of_nat (List.length refp)) (1 + qshift) (Z.of_nat (List.length qp) + qshift) rev_ ps then 0 else 2
+    end end.
+'''
 
 
 def params_term(P):
@@ -139,7 +154,7 @@ def align_term(case, out):
     cerr = 'cigar_err' in out
     return '(%s, %s, %s, %s, %s, %s, %s, %s, %s, (%s, %s, (%s,%s,%s,%s,%s), (%s, %s)))' % (
         params_term(case['P']), z(case['it']), zl(r10(x) for x in case['ref']), z(case['rlen'] * 10), zl(r10(x) for x in case['qry']),
-        z(case['qlen'] * 10), z(case.get('shift', 0)), zl(p * 10 for p in case['peaks']), cb(case['rev']),
+        z(r10(case['qlen'])), z(case.get('shift', 0)), zl(p * 10 for p in case['peaks']), cb(case['rev']),
         cb(err), clist(cseg_term(s) for s in segs), z(hdr[0]), z(hdr[1]), z(hdr[2]), z(hdr[3]), z(hdr[4]), cb(cerr), cstr(out.get('cigar', '')))
 
 
